@@ -471,12 +471,23 @@ func (s *State) applyContract(site ssa.Instruction, key string, con *Contract, c
 		pkg = eng.pkgByName[strings.SplitN(key, ".", 2)[0]]
 	}
 	short := key
+	pkgName := ""
+	if pkg != nil {
+		pkgName = pkg.Pkg.Name()
+	}
 	for i, rq := range con.Requires {
-		x := &EvalCtx{s: s, old: nil, vars: vars, pkg: pkg}
-		v := x.eval(rq.Expr)
-		c.specErrors(x, rq.Where)
-		s.oblige("pre:"+short, site, c.ordinal(site, "pre:"+short)*100+i+1, v.S, "precondition of "+short+": "+rq.Src, false)
-		s.assume(v.S)
+		parts := unfoldConj(rq.Expr, eng.contracts.Preds, pkgName, 0)
+		for j, part := range parts {
+			x := &EvalCtx{s: s, old: nil, vars: vars, pkg: pkg}
+			v := x.eval(part)
+			c.specErrors(x, rq.Where)
+			n := c.ordinal(site, "pre:"+short)*100 + i + 1
+			if len(parts) > 1 {
+				n = n*100 + j + 1
+			}
+			s.oblige("pre:"+short, site, n, v.S, "precondition of "+short+": "+part.String(), false)
+			s.assume(v.S)
+		}
 	}
 	old := s.clone()
 	// frame
@@ -520,9 +531,13 @@ func (s *State) applyContract(site ssa.Instruction, key string, con *Contract, c
 	}
 	bindResultVars(vars, res, callee, sig)
 	for _, en := range con.Ensures {
-		x := &EvalCtx{s: s, old: old, vars: vars, pkg: pkg}
+		x := &EvalCtx{s: s, old: old, vars: vars, pkg: pkg, lenient: true}
 		v := x.eval(en.Expr)
+		if x.skip {
+			continue
+		}
 		c.specErrors(x, en.Where)
+		c.clauseErr = ""
 		s.assume(v.S)
 	}
 	if con.Defines != "" && len(res) == 1 {
@@ -581,6 +596,26 @@ func (s *State) evalAssigns(con *Contract, vars map[string]Val, pkg *ssa.Package
 		x := &EvalCtx{s: s, vars: vars, pkg: pkg}
 		switch n := e.(type) {
 		case *ECall:
+			if n.Fn == "allocset" && len(n.Args) == 1 {
+				if id, ok := n.Args[0].(*EIdent); ok {
+					t, _ := x.specTypeAny(id.Name)
+					if t != nil {
+						locs = append(locs, frameLoc{kind: "allocset", prefix: "allocset|" + typeKey(t), desc: e.String(), T: t})
+						continue
+					}
+				}
+				if sel, ok := n.Args[0].(*ESelect); ok {
+					if id, ok := sel.X.(*EIdent); ok {
+						t, _ := x.specTypeAny(id.Name + "." + sel.F)
+						if t != nil {
+							locs = append(locs, frameLoc{kind: "allocset", prefix: "allocset|" + typeKey(t), desc: e.String(), T: t})
+							continue
+						}
+					}
+				}
+				s.c.specErr(con.Where, "assigns %s: unknown type", e)
+				continue
+			}
 			if n.Fn == "allelems" && len(n.Args) == 1 {
 				if ts, ok := n.Args[0].(*EStr); ok {
 					t, _ := x.specTypeAny(ts.V)
@@ -713,7 +748,7 @@ func (s *State) havocLocPre(l frameLoc, pre *State) {
 			c.fresh++
 			s.assume(fmt.Sprintf("(forall ((%s Int)) (! (=> (not %s) (= (select %s %s) (select %s %s))) :pattern ((select %s %s))))", b, l.nestedMember(pre, b), nr, b, old, b, nr, b))
 		}
-	case "type", "elemtype":
+	case "type", "elemtype", "allocset":
 		s.havocPrefix(l.prefix)
 	case "fld":
 		if k := kindOf(l.T); k == kStruct || k == kArray {
@@ -851,6 +886,8 @@ func (s *State) frameCheckLoc(site ssa.Instruction, l frameLoc) {
 			}
 		}
 		goal = fmt.Sprintf("(forall ((%s Int)) (=> (and (<= 0 %s) (< %s %s)) %s))", j, j, j, l.outer.Sl.Len, or(own...))
+	case "allocset":
+		goal = "true" // ghost state: no frame obligation in the caller (its own declaration is checked at its returns)
 	case "glob", "type", "elemtype":
 		goal = "false"
 		for _, f := range c.frame {
@@ -1073,6 +1110,9 @@ func (c *FnCtx) loopMods(h *ssa.BasicBlock) ([]string, bool) {
 
 // assignKeys: heap key prefixes a callee's assigns entry may touch (syntactic, type-based).
 func (c *FnCtx) assignKeys(e Expr, callee *ssa.Function) ([]string, bool) {
+	if call, ok := e.(*ECall); ok && call.Fn == "allocset" {
+		return []string{"allocset|"}, false
+	}
 	if call, ok := e.(*ECall); ok && (call.Fn == "alloftype" || call.Fn == "allelems") && len(call.Args) == 1 {
 		if ts, ok := call.Args[0].(*EStr); ok {
 			x := &EvalCtx{s: c.entry}
